@@ -14,7 +14,9 @@ SAFE_NS = [("ex", "http://example.org/"), ("foo", "http://foo.org/ns#"), ("ex2",
 CLASH_NS = [("ex", "http://other/"), ("ex_1", "http://a/b/"), ("dn", "http://dn/"), ("foo", "http://example.org/"),
             ("prov", "http://notprov/"), ("xsd", "http://notxsd/"),
             # a third and a fourth namespace under one prefix: the second and third renaming (ex_1, ex_2, ...) in one scope
-            ("ex", "http://third.example/"), ("ex", "http://fourth.example/x#")]
+            ("ex", "http://third.example/"), ("ex", "http://fourth.example/x#"),
+            # prefixes other vocabularies made familiar: a user may bind them to anything, the library has no claim on them
+            ("xs", "http://example.org/xs/"), ("rdf", "http://example.org/not-rdf/"), ("dc", "http://example.org/dc/")]
 DEFAULT_URIS = ["http://default/", "http://example.org/", "http://default3.example/d#", "http://default4.example/"]
 PROV_EXTRA = ["type", "label", "value", "location", "role"]
 KIND_TO_FACTORY = {"Entity": ["entity", "collection"], "Activity": ["activity"], "Agent": ["agent"],
@@ -47,6 +49,7 @@ class DocBuilder:
        value_kinds list of value kinds (see Gen.value)
        repeat_id  probability of re-using an existing identifier
        redefault  probability (per document) that some scope's default namespace is declared anew between two records
+       foreign_formal probability that a record also carries a PROV formal attribute of another kind
        reclock    probability that a time repeats the clock reading of an earlier one under another UTC offset
        twins      probability (per attribute) of repeating an earlier URI-valued attribute with the other kind of value
        malformed  probability of a deliberately invalid argument (error branches)
@@ -58,7 +61,7 @@ class DocBuilder:
         self.w = w
         self.o = dict(clash=0.2, foreign=0.15, value_kinds=None, repeat_id=0.2, malformed=0.05,
                       paths=("new_record", "factory", "conv"), defaults=0.3, bare=True, fulluri=True,
-                      multi=0.2, anon=0.5, dup_formal=0.06, xml=False, subtypes=0.0, plain_binary=0.0, twins=0.0, redefault=0.0, reclock=0.0,
+                      multi=0.2, anon=0.5, dup_formal=0.06, xml=False, subtypes=0.0, plain_binary=0.0, twins=0.0, redefault=0.0, reclock=0.0, foreign_formal=0.0,
                       free_bundle=float(__import__("os").environ.get("VERIF_FREE_BUNDLE", "0.15")))
         self.o.update(opts)
         self.ids = {}        # scope -> list of identifiers used (QualifiedName objects as returned)
@@ -296,6 +299,13 @@ class DocBuilder:
             v2 = (self.time() if l in TIME_ATTRS else self.ref(c)) if g.chance(0.7) else args[i]
             if v2 is not None:
                 other = other + [(PROV[l] if g.chance(0.5) else "prov:" + l, v2)]
+        if self.o["foreign_formal"] and g.chance(self.o["foreign_formal"]):
+            # a PROV formal attribute that is not an argument of *this* kind (prov:agent on a generation, prov:time on an entity):
+            # stored like any formal attribute (one value, a name or a time), listed among the record's other attributes
+            cands = sorted((REF_ATTRS | TIME_ATTRS) - set(FORMALS[kind]) - {"collection"})
+            if cands:
+                l = g.choice(cands)
+                other = other + [(PROV[l], (g.dt() if l in TIME_ATTRS else self.ref(c)))]
         if kind in NO_ID_KINDS and g.chance(self.o["plain_binary"]):
             # alternateOf / specializationOf / mentionOf / hadMember as PROV-N knows them: no identifier, no attributes
             ident = None
